@@ -355,6 +355,60 @@ impl Prop for Units {
 
 // ---- strategies --------------------------------------------------------------------------------
 
+// ---- a conversion inside arithmetic, the converted operand possibly held in a variable ------------------
+
+/// `a U1 +- b U2 to U3` (the conversion phrase binds to the quantity next to it, then the sum is taken in U1), and the same
+/// line with `b U2` held in a variable bound on an earlier line: both give a +- b·f(U2)/f(U1) in U1
+#[derive(Clone, Debug, Serialize, Deserialize)]
+pub struct SumConv {
+    pub a: NumLit,
+    pub u1: U,
+    pub plus: bool,
+    pub b: NumLit,
+    pub u2: U,
+    pub u3: U,
+    pub via_var: bool,
+}
+
+pub struct SumWithConversion;
+
+impl Prop for SumWithConversion {
+    type Case = SumConv;
+    fn name(&self) -> &'static str {
+        "conversion-inside-a-sum"
+    }
+    fn check(&self, w: &mut Worker, c: &SumConv) -> Verdict {
+        let cfg = Cfg::default();
+        let q2 = format!("{} {}", c.b.render(",", "."), c.u2.source_name());
+        let head = format!("{} {} {}", c.a.render(",", "."), c.u1.source_name(), if c.plus { '+' } else { '-' });
+        let text = if c.via_var { format!("b = {}\n{} b to {}", q2, head, c.u3.target_name()) } else { format!("{} {} to {}", head, q2, c.u3.target_name()) };
+        let rendered = text.replace('\n', " ; ");
+        let out = match w.eval(&cfg, "en", &text) {
+            Ok(o) => o,
+            Err(p) => return Verdict::fail(format!("panic at {}: {}", p.site, p.message), rendered),
+        };
+        let r = conv(c.b.value(), &c.u2, &c.u1);
+        let exp = if c.plus { c.a.value() + r } else { c.a.value() - r };
+        let scale = c.a.value().abs().max(r.abs());
+        let mut acc = Acc::new();
+        let info = c.u1.info();
+        match out.slots.last() {
+            Some(Slot::Ok { v: V::Unit(x, g, i), .. }) if *g == info.group && *i == info.index && crate::common::close_scaled(*x, exp, scale) => {}
+            other => acc.fail(format!("expected {} {}#{} got {:?}", exp, info.group, info.index, other.map(|s| s.brief()))),
+        }
+        acc.finish(rendered).nt(c.u2.unit != c.u1.unit).class("conversion-inside-a-sum").class_if(c.via_var, "converted-operand-held-in-a-variable")
+    }
+}
+
+pub fn sumconv_strategy() -> impl Strategy<Value = SumConv> {
+    let small = || (1u32..=5000, 0u8..3).prop_map(|(v, d)| NumLit::new(v as f64 / 10f64.powi(d as i32)));
+    (small(), unit_strategy(), any::<bool>(), small(), any::<u32>(), any::<u32>(), any::<u32>(), any::<u32>(), any::<bool>()).prop_map(|(a, u1, plus, b, p2, n2, p3, n3, via_var)| {
+        let u2 = same_kind(&u1, p2, n2);
+        let u3 = same_kind(&u1, p3, n3);
+        SumConv { a, u1, plus, b, u2, u3, via_var }
+    })
+}
+
 pub fn amount_strategy() -> impl Strategy<Value = NumLit> {
     let v = prop_oneof![
         4 => (1u32..=1000).prop_map(|v| v as f64),
@@ -426,11 +480,13 @@ pub fn run(ctx: &Ctx) {
         crate::engine::Tier::Thorough => ctx.run_table(&Units, "all-unit-pairs", pair_table(&[1.0, 2.5, 0.001, 1234.5678, 1e6, -3.0, 0.0, 7.0, 1e-6, 99999.5], &[0, 1, 2, 3]), true),
     }
     ctx.run_generated(&Units, ctx.tier.pick(40_000, 400_000), case_strategy);
+    ctx.run_generated(&SumWithConversion, ctx.tier.pick(15_000, 150_000), sumconv_strategy);
 }
 
 pub fn replay(w: &mut Worker, sub: &str, case: &serde_json::Value) -> Option<Verdict> {
     match sub {
         "units" => crate::engine::replay_case(&Units, w, case),
+        "conversion-inside-a-sum" => crate::engine::replay_case(&SumWithConversion, w, case),
         _ => None,
     }
 }
